@@ -8,9 +8,14 @@ use crate::mem::{MemQueue, QueuesSummary};
 use crate::rolling::FileNumber;
 use crate::Record;
 
+#[cfg(not(mrecordlog_verif))]
+type QueuesHasher = std::collections::hash_map::RandomState;
+#[cfg(mrecordlog_verif)]
+type QueuesHasher = crate::verif::DetBuildHasher;
+
 #[derive(Default)]
 pub(crate) struct MemQueues {
-    queues: HashMap<String, MemQueue>,
+    queues: HashMap<String, MemQueue, QueuesHasher>,
 }
 impl MemQueues {
     /// The file number argument is here unused. Its point is just to make sure we
